@@ -142,6 +142,8 @@ pub struct Report {
     pub exhaustive: bool,
     pub assumptions: Vec<String>,
     pub parts: Vec<Value>,
+    /// violations reported by the libFuzzer campaign of this run (replay files written by the check script)
+    pub fuzz_violations: u64,
 }
 
 impl Report {
